@@ -20,6 +20,7 @@ from .speceval import SpecEval
 from .engine import Engine, Obl
 
 Z3_TIMEOUT_MS = 6000
+LONG_Z3_MS = 15000
 CVC5_TIMEOUT_S = 10
 
 
@@ -75,7 +76,7 @@ def check(pc, goal, timeout_ms=None, quick=False):
     cand = None
     if True:
         s0 = z3.Solver()
-        s0.set("timeout", 3000)
+        s0.set("timeout", 1200)
         s0.add(*qf)
         s0.add(z3.Not(goal))
         r0 = s0.check()
@@ -83,8 +84,9 @@ def check(pc, goal, timeout_ms=None, quick=False):
             return DISCHARGED, None, "z3", time.time() - t0, "unsat (quantifier-free hypotheses suffice)", None
         if r0 == z3.sat:
             cand = s0.model()
+    first_ms = min(timeout_ms, 2000)
     s = z3.Solver()
-    s.set("timeout", timeout_ms)
+    s.set("timeout", first_ms)
     s.add(*pc)
     s.add(z3.Not(goal))
     r = s.check()
@@ -96,6 +98,12 @@ def check(pc, goal, timeout_ms=None, quick=False):
     reason = s.reason_unknown()
     if quick:
         return UNDECIDED, None, "z3", time.time() - t0, "z3 unknown (%s); short budget" % reason, cand
+    # second opinion first (cvc5 decides many sequence + quantifier queries that z3 times out on)
+    st2, txt, dt2 = cvc5_check(s)
+    if st2 == "unsat":
+        return DISCHARGED, None, "cvc5", time.time() - t0, "z3 unknown (%s) in %d ms; cvc5 unsat" % (reason, first_ms), None
+    if st2 == "sat":
+        return VIOLATED, None, "cvc5", time.time() - t0, "z3 unknown (%s); cvc5 sat\n%s" % (reason, txt[:2000]), cand
     # model search with bounded-quantifier validation (sound: the returned model is checked
     # against every hypothesis that was left out of the query)
     try:
@@ -106,15 +114,19 @@ def check(pc, goal, timeout_ms=None, quick=False):
         return VIOLATED, m2, "z3", time.time() - t0, \
             "sat (z3 %s on the full query; model found without the sequence-indexed quantified hypotheses and " \
             "validated against each of them by exhaustive instantiation over their bounded ranges, %d refinement round(s))" % (reason, rounds), None
-    if quick:
-        return UNDECIDED, None, "z3", time.time() - t0, "z3 unknown (%s); short budget" % reason, cand
-    # second opinion
-    st2, txt, dt2 = cvc5_check(s)
-    if st2 == "unsat":
-        return DISCHARGED, None, "cvc5", dt + dt2, "z3 unknown (%s); cvc5 unsat" % reason, None
-    if st2 == "sat":
-        return VIOLATED, None, "cvc5", dt + dt2, "z3 unknown (%s); cvc5 sat\n%s" % (reason, txt[:2000]), cand
-    return UNDECIDED, None, "z3+cvc5", dt + dt2, "z3 unknown (%s); cvc5 %s" % (reason, st2), cand
+    # a longer z3 attempt (only reached when nothing else decided)
+    if timeout_ms > first_ms:
+        s3 = z3.Solver()
+        s3.set("timeout", LONG_Z3_MS)
+        s3.add(*pc)
+        s3.add(z3.Not(goal))
+        r3 = s3.check()
+        if r3 == z3.unsat:
+            return DISCHARGED, None, "z3", time.time() - t0, "unsat (long budget)", None
+        if r3 == z3.sat:
+            return VIOLATED, s3.model(), "z3", time.time() - t0, "sat", None
+        reason = s3.reason_unknown()
+    return UNDECIDED, None, "z3+cvc5", time.time() - t0, "z3 unknown (%s); cvc5 %s" % (reason, st2), cand
 
 
 def _has_seq_op(e):
@@ -312,7 +324,7 @@ def model_json(E: Engine, model, env):
     return out
 
 
-def verify_function(key, prop_prefix="", replayer=None, only_labels=None) -> list[Result]:
+def verify_function(key, prop_prefix="", replayer=None, only_labels=None, engine_cls=None) -> list[Result]:
     """Verify one repo function against its sidecar contract."""
     c = S.CONTRACTS[key]
     short = key.split(":")[1]
@@ -321,7 +333,7 @@ def verify_function(key, prop_prefix="", replayer=None, only_labels=None) -> lis
     from .state import HEAP_AXIOMS
     HEAP_AXIOMS.clear()
     try:
-        E = Engine(key, c)
+        E = (engine_cls or Engine)(key, c)
     except Unsupported as e:
         return [Result("%s%s" % (prop_prefix, short), UNDECIDED, function=key, output="unsupported: %s" % e,
                        detail="function lookup / setup")], None
@@ -360,7 +372,7 @@ def verify_function(key, prop_prefix="", replayer=None, only_labels=None) -> lis
     # discharge, aggregate per clause label
     groups = {}
     for o in E.obls:
-        if only_labels and o.label not in only_labels:
+        if only_labels and not (o.label in only_labels if not callable(only_labels) else only_labels(o.label)):
             continue
         groups.setdefault((o.label, o.klass), []).append(o)
     for (label, klass), obs in groups.items():
